@@ -142,6 +142,27 @@ Theorem C16_body_nodes : forall c i, count_kind "body" (spec_children c i) = nro
 Proof. exact spec_children_bodies. Qed.
 Print Assumptions C16_body_nodes.
 
+(* ---- for_node and its class registry ----------------------------------------------------- *)
+(* For EVERY content of for_node_factory's class registry (whatever earlier for_node calls
+   registered, under whatever spelling of iter_on / zip_on -- bare string or tuple -- and
+   whatever name clashes str.title() produces) and EVERY request: the class the new node is an
+   instance of is the one built from THIS call's body, looped fields, output form, column map
+   and cache flag (or this call's creation error) *)
+Theorem C16_for_node_fresh : forall reg q,
+  snd (for_node_class reg q) =
+  match check_class (cfg_of q) with Some e => Err e | None => Ok (cfg_of q) end.
+Proof. exact for_node_class_fresh. Qed.
+Print Assumptions C16_for_node_fresh.
+
+(* ... so any number of for-nodes made and run one after the other in one process behave as
+   that many independent nodes, each of its own configuration *)
+Theorem C16_session_independent : forall reg qs,
+  session_go reg qs =
+  map (fun qs : request * list step =>
+         OL [OS (name_of (fst qs) (fresh_class (fst qs))); scenario (cfg_of (fst qs)) (snd qs)]) qs.
+Proof. exact session_independent. Qed.
+Print Assumptions C16_session_independent.
+
 (* ---- where the unchanged code violates the property ---------------------------------- *)
 (* zero-length iterated input next to non-empty zipped input: no combination exists, yet two
    body nodes are built and RUN -- on the body's default for the iterated input -- and the
